@@ -180,6 +180,71 @@ def cache_mask(o):
     return "".join(c for c, a in (("S", "Sigma"), ("s", "ln_det_Sigma"), ("l", "ln_det_Lambda"), ("m", "mu"), ("Z", "lnZ")) if getattr(o, a, None) is not None)
 
 
+def exercise_pdf(o):
+    """Call (and discard) a broad set of public read-only operations on a density, so that anything an
+    implementation memoises is populated before the object is changed in place."""
+    D, R = o.D, o.R
+    x = J(al.points(2, D, salt=11))
+    o.evaluate_ln(x)
+    o.evaluate(x)
+    for key in ("1", "x", "xx'"):
+        o.integrate(key)
+    o.integrate("(Ax+a)'(Bx+b)")
+    o.integrate("(Ax+a)(Bx+b)'")
+    o.integrate("xb'xx'", b_vec=J(al.int_vector(D, salt=1) * 0.5))
+    o.integrate("(Ax+a)'(Bx+b)(Cx+c)'(Dx+d)")
+    o.log_integral()
+    o.log_integral_light()
+    o.entropy()
+    o.kl_divergence(o)
+    for k in range(1, D + 1):
+        o.get_marginal(jnp.arange(k))
+        o.get_marginal(jnp.arange(D - 1, D - 1 - k, -1))
+    if D >= 2:
+        for k in range(1, D):
+            o.condition_on(jnp.arange(k))
+            o.condition_on(jnp.arange(D - 1, D - 1 - k, -1))
+            o.condition_on_explicit(jnp.arange(k), jnp.arange(k, D))
+    o.get_density_of_linear_sum(J(np.eye(D)[None]), J(np.zeros((1, D))))
+    o.multiply(factor.LinearFactor(nu=J(np.ones((1, D)))), update_full=True)
+    o.hadamard(factor.OneRankFactor(v=J(np.ones((1, D)))), update_full=True)
+    o.slice(jnp.array([0]))
+    o.get_density()
+    import jax
+
+    o.sample(jax.random.PRNGKey(0), 1)
+    return o
+
+
+def exercise_cond(o, kw=None):
+    """The same for a linear conditional (kw: control variable of the NN-controlled class)."""
+    kw = kw or {}
+    Dx, Dy = o.Dx, o.Dy
+    x = J(al.points(2, Dx, salt=11))
+    p = mk_pdf("GaussianPDF", np.eye(Dx)[None] * 1.5, np.ones((1, Dx)) * 0.3)
+    if kw:
+        o.condition_on_x_u(x, kw["u"])
+        o.set_control_variable(kw["u"])
+    else:
+        o.condition_on_x(x)
+        o.slice(jnp.array([0]))
+    o.get_conditional_mu(x, **kw)
+    if o.R == 1 or kw:
+        o.set_y(J(al.points(1 if not kw else len(kw["u"]), Dy, salt=12)), **kw)
+    else:
+        o.set_y(J(al.points(o.R, Dy, salt=12)))
+    o.affine_joint_transformation(p, **kw)
+    o.affine_marginal_transformation(p, **kw)
+    o.affine_conditional_transformation(p, **kw)
+    o.conditional_entropy(p, **kw)
+    o.mutual_information(p, **kw)
+    if o.R == 1 and (not kw or len(kw["u"]) == 1):
+        q = mk_pdf("GaussianPDF", np.eye(Dx + Dy)[None] * 1.2, np.zeros((1, Dx + Dy)))
+        o.integrate_log_conditional(q, **kw)
+        o.integrate_log_conditional_y(p, **kw)
+    return o
+
+
 def pdf_variants(kind, Sig, mu, which=("fresh", "Sigma+Lambda", "Sigma+Lambda+lndet", "sliced_neg", "updated", "queried")):
     """Densities reached in different ways -> list of (label, builder, mu_eff, Sig_eff).
       fresh / Sigma+Lambda / Sigma+Lambda+lndet : the three constructor argument combinations;
@@ -206,19 +271,13 @@ def pdf_variants(kind, Sig, mu, which=("fresh", "Sigma+Lambda", "Sigma+Lambda+ln
             out.append((w, b, mu, Sig))
         elif w == "updated":
             def b():
-                o = mk_pdf(kind, Sig * 2.0, mu + 1.0)
-                o.integrate("xx'")
-                o.log_integral()
+                o = exercise_pdf(mk_pdf(kind, Sig * 2.0, mu + 1.0))
                 o.update(jnp.arange(R), mk_pdf(kind, Sig, mu))
                 return o
             out.append((w, b, mu, Sig))
         elif w == "queried":
             def b():
-                o = mk_pdf(kind, Sig, mu)
-                o.integrate("xx'")
-                o.integrate("x")
-                o.log_integral_light()
-                return o
+                return exercise_pdf(mk_pdf(kind, Sig, mu))
             out.append((w, b, mu, Sig))
         elif w == "conditioned" and R % 2 == 0 and R >= 2:
             Rc = R // 2
